@@ -31,3 +31,9 @@ CORPUS = [
     M("n-exit-2", C, "            _LOGGER.error(\"'%s' property is not writable.\", name)\n            exit(1)", "            _LOGGER.error(\"'%s' property is not writable.\", name)\n            exit(2)", "S"),
     M("n-len-check", C, "    if not new_properties:\n        return", "    if len(new_properties) == 0:\n        return", "S"),
 ]
+# round 7 (C20.f): the exit status _control chose is the one the process ends with
+CORPUS += [
+    M("exit-zero-in-finally", "msmart/cli.py", "    except KeyboardInterrupt:\n        pass\n\n    exit(0)", "    except KeyboardInterrupt:\n        pass\n    finally:\n        exit(0)"),
+    M("system-exit-swallowed", "msmart/cli.py", "    except KeyboardInterrupt:\n        pass\n\n    exit(0)", "    except (KeyboardInterrupt, SystemExit):\n        pass\n\n    exit(0)"),
+    M("n-shutdown-in-finally", "msmart/cli.py", "    except KeyboardInterrupt:\n        pass\n\n    exit(0)", "    except KeyboardInterrupt:\n        pass\n    finally:\n        logging.shutdown()\n\n    exit(0)", "S"),
+]
